@@ -145,6 +145,15 @@ def validate_gp_type(gp_type, n_samples, n_landmarks):
             logger.warning(message)
             raise ValueError(message)
 
+    elif gp_type == GaussianProcessType.FIXED and n_landmarks == 0:
+        message = (
+            f"Gaussian Process type {gp_type} requires landmarks but n_landmarks=0. "
+            "Set n_landmarks to a positive number or omit gp_type to use a non-sparse "
+            "Gaussian Process."
+        )
+        logger.error(message)
+        raise ValueError(message)
+
 
 def validate_params(rank, gp_type, n_samples, n_landmarks, landmarks):
     """
